@@ -257,9 +257,12 @@ def r18_4(ctx):
     ai = pm.make_interp(ctx)
     install_select(ai)
     ps = ctx.p.cls(S, 'PortServer')
-    rc = ps.methods.get('_receive')
+    # the anchor for reports: the server's own receive hook when it has one, else whatever poll() resolves to
+    rc = ps.methods.get('_receive') or ctx.p.lookup_method(ps, '_receive')[1] or ctx.p.lookup_method(ps, 'poll')[1]
+    if rc is None:
+        raise AnalysisError('PortServer has no receive path')
     ctx.fn(rc)
-    w = ctx.where(rc)
+    w = f'{ps.module.relpath}:{ps.node.lineno} PortServer'
     holder = {}
 
     def mk_server_socket(interp, args, kwargs, node):
